@@ -273,6 +273,25 @@ func newAbsChain(opts ...ManagerOption) *absChain { return newAbsChainOn(nil, ni
 
 // newAbsChainOn builds the chain over a caller-supplied DB (default: a fresh
 // MemDB); wrap, if given, wraps the store handed to the manager.
+// absNetwork is the harness network: every hardfork before v2 active from
+// genesis, an empty genesis block with nonce 0.
+func absNetwork() (*consensus.Network, types.Block) {
+	n, genesis := TestnetZen()
+	n.HardforkOak.Height = 0
+	n.HardforkOak.FixHeight = 0
+	n.HardforkDevAddr.Height = 0
+	n.HardforkTax.Height = 0
+	n.HardforkStorageProof.Height = 0
+	n.HardforkASIC.Height = 0
+	n.HardforkFoundation.Height = 0
+	n.HardforkV2.AllowHeight = 100
+	n.HardforkV2.RequireHeight = 200
+	n.HardforkV2.FinalCutHeight = 300
+	genesis.Transactions = nil
+	genesis.Nonce = 0
+	return n, genesis
+}
+
 func newAbsChainOn(db DB, wrap func(Store) Store, opts ...ManagerOption) *absChain {
 	newAbsWorld()
 	n, genesis := TestnetZen()
@@ -394,6 +413,13 @@ func (c *absChain) checkLinked(tag string) {
 			}
 			cs, ok := c.m.State(a.best[h].ID)
 			vapi.Assert(tag+".linked.state", ok && cs.Index == a.best[h])
+			if h > 0 {
+				// the stored state of a best-chain block is the state after
+				// applying the block, not the one derived from its header alone
+				// (every applied block adds at least its chain index leaf)
+				ps, _ := c.m.State(a.best[h-1].ID)
+				vapi.Assert(tag+".linked.state-is-the-applied-one", cs.Elements.NumLeaves > ps.Elements.NumLeaves)
+			}
 			k := absNonce(a.best[h].ID)
 			if h > 0 {
 				vapi.Assert(tag+".valid.header", !absW.hdrBad[k])
